@@ -287,6 +287,8 @@ def _minmax(is_min):
     def f(it, *args, key=None, default=NotImplemented):
         import ast
         if key is not None: raise Outside('min/max with key')
+        if len(args) == 1 and isinstance(args[0], SymVal) and hasattr(args[0], 'sym_minmax'):
+            return args[0].sym_minmax(it, is_min, default)
         items = it.iterate(args[0]) if len(args) == 1 else list(args)
         if not items:
             if default is not NotImplemented: return default
